@@ -50,9 +50,12 @@ class _Auxiliar(BaseModel):
         """
         if isinstance(value, str):
             try:
-                return json.loads(value)
+                value = json.loads(value)
             except Exception:
                 return value
+        if isinstance(value, dict) and not value:
+            # Every optional-only property model would accept an empty object: it is none of them
+            raise ValueError("An empty object is not a known property")
         return value
 
     @classmethod
